@@ -24,8 +24,8 @@ CLAIMED = {
         text='Theorems (all configurations, all payloads): every frame of the reference segmentation Spec.Segment.seg is well formed (C02_wellformed); a request that fits produces exactly the Single Frame of the Spec, padded/DLC-rounded as documented (C02_single); otherwise the First Frame of the Spec incl. the 32-bit escape form (C02_first_frame); every later data frame is the next Consecutive Frame of the Spec with the running sequence number (C02_consecutive_frame); refused sends queue nothing (C02_refuse); run level, cooperative peer: driven with a ContinueToSend (any block size / separation time) whenever it waits and with enough time between passes, a multi-frame request emits EXACTLY the reference segmentation, in order, completes once with success and leaves the sender idle (C02_cooperative_run, induction over the Consecutive Frames). Tied to /repo by campaigns comparing every emitted frame with the extracted Spec segmentation (cooperative peer, standby/rate-limited, boundary lengths, >4095 escape, 2^32 refusal).',
         note='The whole-run equality frames = seg is proved for the cooperative driver (sender-level functions start_request / handle_fc_active / tx_cf with the rate limiter allowing a full frame); other schedules (rate-limited standby, Wait frames, arbitrary interleavings of process() passes) are covered per frame by the one-step theorems and by the campaigns.'),
     'C03': dict(design='4 (C03)',
-        text='Theorem C03_reassembly: for every configuration and every well-formed stream (FF + consecutive CFs, any block size, any prefix, any link-layer size, short or escape FF) fed with timers kept, the receiver ends idle with exactly the payload queued, no error; C03_flow_control_frame: the FC sent is CTS with the configured blocksize/stmin, padded per configuration. Induction over the CF list, unbounded length. Tied to /repo by stream campaigns (reference encoder independent of the model) and the K1 correspondence.',
-        note='Stream well-formedness (wf_stream) is a Spec predicate; block boundaries and the exact instants of the flow-control frames are covered by fc_answer (one-step) and by the campaign.'),
+        text='Theorem C03_reassembly: for every configuration and every well-formed stream (FF + consecutive CFs, any block size, any prefix, any link-layer size, short or escape FF) fed with timers kept, the receiver ends idle with exactly the payload queued, no error; C03_flow_control_frame: the FC sent is CTS with the configured blocksize/stmin, padded per configuration; C03_flow_control_positions: answering each pending Flow Control at once, the receiver emits exactly one reference Flow Control after the First Frame and one after every blocksize-th Consecutive Frame that is not the last, none elsewhere, and delivers the payload. Induction over the CF list, unbounded length. Tied to /repo by stream campaigns (reference encoder independent of the model) and the K1 correspondence.',
+        note='Stream well-formedness (wf_stream) is a Spec predicate; the positions theorem is for a receiver that runs its transmit pass right after each frame that makes a Flow Control pending (what process() does).'),
     'C04': dict(design='4 (C04)',
         text='Theorems over every reachable state (invariant WF preserved by every micro-step, any inputs): a layer that is transmitting always has the timer that will end the wait running (C04_nowedge); Overflow aborts with OverflowError and failure completion (C04_overflow); Wait frames: wftmax=0 -> UnexpectedFlowControl-free abort, more than wftmax -> MaximumWaitFrameReachedError, otherwise the N_Bs timer restarts (C04_wait0/_wait_max/_wait_ok); no more than blocksize CFs leave without a new CTS (C04_block). Tied to /repo by exhaustive flow-control-letter sequences from 6 start states plus random ones, compared line by line with the extracted model.',
         note='Termination is proved as "some timer is running in every non-idle tx state" plus the timeout theorems of C07; the bound on the number of process() passes is not proved.'),
